@@ -20,6 +20,8 @@ def plan(ctx):
     for be, k, m, hd in [(RS, 2, 1, 1), (ISAV, 2, 1, 1)] + ([(RS, 2, 2, 2)] if thorough else []):
         n = k + m
         obs.append(leak(l2_ob(be, k, m, hd, list(range(1, n))), "leak"))                       # decode via back end
+        obs.append(leak(l2_ob(be, k, m, hd, list(range(1, n)), unalign=(1 << (n - 1)) - 1), "leak"))          # ... with every fragment buffer unaligned (copies made and released)
+        obs.append(leak(l2_ob(be, k, m, hd, list(range(1, n)), mode=2, dest=0, unalign=1 << (n - 2)), "leak"))  # reconstruct with an unaligned parity
         obs.append(leak(l2_ob(be, k, m, hd, list(range(n))[::-1], ct=2, force=1), "leak"))       # fast path with checks
         obs.append(leak(l2_ob(be, k, m, hd, list(range(1, n)), mode=2, dest=0, ct=2), "leak"))   # reconstruct
         obs.append(leak(l2_ob(be, k, m, hd, list(range(n)), mode=2, dest=1), "leak"))            # destination supplied
